@@ -102,11 +102,15 @@ class StructureDetector:
         # Stack of loops with follow nodes
         self.loop_stack = [(top_loop, None)]
         self.shapes = []
-        shape = self.make_shape(self.cfg.entry_node)
+        shape = self.make_shape(self.cfg.entry_node, self.cfg.exit_node)
         return shape
 
-    def make_shape(self, entry):
-        """Given a set of blocks and an entry block, determine the shape"""
+    def make_shape(self, entry, fall_through):
+        """Given a set of blocks and an entry block, determine the shape
+
+        fall_through is the node that is reached when control runs off
+        the end of the shape.
+        """
 
         # Decide between loop, if-else or straight line code:
         if entry is self.cfg.exit_node:
@@ -121,7 +125,7 @@ class StructureDetector:
             self.marked.add(follow_up)
 
             self.logger.debug("--> Loop: %s break to %s", entry, follow_up)
-            s1 = self.make_shape(entry)
+            s1 = self.make_shape(entry, follow_up)
             self.logger.debug("--> end loop")
 
             # Cleanup stacks:
@@ -130,14 +134,14 @@ class StructureDetector:
             # Create shape:
             shape = LoopShape(s1)
             if follow_up:
-                s3 = self.make_shape(follow_up)
+                s3 = self.make_shape(follow_up, fall_through)
                 shape = SequenceShape([shape, s3])
         elif len(entry.successors) == 1:
             # Simple straight ahead:
             self.logger.debug("--> code: %s", entry)
             (follow_up,) = entry.successors
             shape = BasicShape(entry)
-            s2 = self.test(follow_up)
+            s2 = self.test(follow_up, fall_through)
             if s2:
                 shape = SequenceShape([shape, s2])
         elif len(entry.successors) == 2:
@@ -151,31 +155,42 @@ class StructureDetector:
             yes, no = entry.yes, entry.no  # TODO: major hack for yes and no
             self.logger.debug("--> code %s", entry)
             self.logger.debug("--> if (based on) %s", entry)
-            yes_shape = self.test(yes)
+            arm_fall_through = follow_up if follow_up else fall_through
+            yes_shape = self.test(yes, arm_fall_through)
             self.logger.debug("--> else")
-            no_shape = self.test(no)
+            no_shape = self.test(no, arm_fall_through)
             self.logger.debug("--> end if %s", entry)
             shape = IfShape(entry, yes_shape, no_shape)
             if follow_up:  # follow_up in same_loop:
-                s2 = self.make_shape(follow_up)
+                s2 = self.make_shape(follow_up, fall_through)
                 shape = SequenceShape([shape, s2])
         else:  # pragma: no cover
             raise NotImplementedError(str(entry))
 
         return shape
 
-    def test(self, node):
+    def test(self, node, fall_through):
         """Check if a node is marked, or else shape it!"""
         if node in self.marked:
             # Break or continue!
-            if node is self.loop_stack[-1][0].header:
+            if node is self.cfg.exit_node:
+                # Blocks without successor end in a return.
+                return None
+            elif node is self.loop_stack[-1][0].header:
                 return ContinueShape(0)
             elif node is self.loop_stack[-1][1]:
                 return BreakShape(0)
-            else:
+            elif node is fall_through:
+                # Reached by running off the end of the current shape.
                 return None
+            else:
+                raise ValueError(
+                    f"Cannot structure the jump to {node}: it is neither"
+                    " the start nor the end of the innermost loop, nor the"
+                    " end of the enclosing if"
+                )
         else:
-            return self.make_shape(node)
+            return self.make_shape(node, fall_through)
 
     def is_inactive_header(self, block):
         if block in self.loop_headers:
